@@ -182,10 +182,25 @@ def first_diff(e, o, path=''):
     return path + '/' + e[0] + '-value'
 
 
-def parse_text(text):
+def literals_of(t, acc=None):
+    """contents of the string literals of a canonical tree"""
+    acc = set() if acc is None else acc
+    if isinstance(t, tuple):
+        if t and t[0] == 'str':
+            acc.add(''.join(map(chr, t[1])))
+        else:
+            for x in t:
+                literals_of(x, acc)
+    elif isinstance(t, list):
+        for x in t:
+            literals_of(x, acc)
+    return acc
+
+
+def parse_text(text, names=None):
     L = xl.lib()
     try:
-        tree = L.parser.FormulaParser().parse(text, {})
+        tree = L.parser.FormulaParser().parse(text, dict(names or {}))
         w = walk(tree)
     except BaseException as e:      # noqa
         if isinstance(e, (KeyboardInterrupt, SystemExit)):
@@ -228,6 +243,18 @@ def worker(blocks):
             out['dis'].append({'case': {'formula': text, 'kind': case['kind'], 'risky_pct': risky_pct(e), 'same_tokens': same_tokens},
                                'exp': repr(e), 'obs': repr(o),
                                'features': {'kind': case['kind'], 'diff': first_diff(e, o) if o[0] not in ('exc', 'exc-XLFormula') else o[0] + ':' + o[1]}})
+            continue
+        # the same text parsed with a defined-name table whose names are the CONTENTS of its string literals (and a few more
+        # that do not occur in it): no operand of the formula is a defined name, the tree must be the same
+        lits = {x for x in literals_of(e) if x}
+        if lits:
+            names = {x: 'Sheet1!$C$3' for x in lits}
+            names.update({'Rate': 'Sheet1!$C$4', 'total_1': 'Sheet1!$A$1:$B$2'})
+            o2 = parse_text(text, names)
+            if o2 != e:
+                out['dis'].append({'case': {'formula': text, 'kind': case['kind'], 'defined_names': sorted(names)[:6]},
+                                   'exp': repr(e), 'obs': repr(o2),
+                                   'features': {'kind': case['kind'], 'diff': 'with-names:' + (first_diff(e, o2) if o2[0] not in ('exc', 'exc-XLFormula') else o2[0] + ':' + o2[1])}})
     return out
 
 
